@@ -151,10 +151,19 @@ def generate(chk):
                 return False
             seen.add(hsh)
             return True
-        tour, st = vf.tlc_gen("ClientStreamGen.tla", "ClientStreamGenTour.cfg" if quick else "ClientStreamGenTourFull.cfg",
-                              keep_prefixes=True, steps_key=None, heap="8g", timeout=3600, line_filter=first_per_prefix)
+        # (every emitted behaviour is a distinct JSON string that TLC interns for the life-time of the
+        # process: the thorough generation is split into one TLC process per group of configurations)
+        shards = ["ClientStreamGenTour.cfg"] if quick else \
+            ["ClientStreamGenTourFull%s.cfg" % x for x in ("DF", "DT", "EF", "ET", "RF", "RT", "Reg")]
+        tour, st = [], {"emitted": 0, "states": 0, "distinct": 0, "wall_s": 0.0, "behaviours": 0, "shards": len(shards)}
+        for shard in shards:
+            t1, s1 = vf.tlc_gen("ClientStreamGen.tla", shard, keep_prefixes=True, steps_key=None, heap="16g", timeout=3600,
+                                line_filter=first_per_prefix)
+            tour += t1
+            for k in ("emitted", "states", "distinct", "wall_s", "behaviours"):
+                st[k] = round(st[k] + s1[k], 2)
         st["transitions_emitted"] = stat["lines"]
-        chosen, sel = select(tour, 5000 if quick else 60000, chk.seed, coarse=quick)
+        chosen, sel = select(tour, 5000 if quick else 30000, chk.seed, coarse=quick)
         # let time pass (longer than the keep-alive interval) at the end of a few behaviours that
         # stop before encryption and before any session, TLS being required: nothing may be written
         nstall = 25 if quick else 250
